@@ -47,6 +47,7 @@ deriving Repr, DecidableEq
 inductive Action where
   | acceptOk (client : Nat)     -- a client connected (environment + accept loop)
   | acceptErr                   -- Accept failed because the listener is closed
+  | acceptTransient             -- Accept failed for another reason (EMFILE, ECONNABORTED …)
   | dialOk (up : Nat)
   | dialFail
   | register
@@ -60,6 +61,12 @@ def step (s : PS) : Action → Option PS
     if s.acc = .accepting ∧ s.listenerOpen then some { s with acc := .dialing c, accepted := c :: s.accepted } else none
   | .acceptErr =>
     if s.acc = .accepting ∧ ¬ s.listenerOpen then some { s with acc := .exited } else none
+  | .acceptTransient =>
+    -- repaired code: `return` only if acceptTomb is dying (freeBlocker has woken up),
+    -- otherwise log, wait 50 ms and accept again
+    if s.acc = .accepting ∧ s.listenerOpen then
+      (if s.fb = .waitDying then some s else some { s with acc := .exited })
+    else none
   | .dialOk u =>
     match s.acc with
     | .dialing c => some { s with acc := .registering c u }
